@@ -7,6 +7,7 @@ package h_scn
 
 import (
 	"context"
+	"crypto/tls"
 	"errors"
 	"fmt"
 	"io"
@@ -35,7 +36,7 @@ type R19 struct {
 	Status int    `json:"status"`
 	Header string `json:"header"` // value of X-H ("-" absent, "1MB" huge)
 	Body   string `json:"body"`   // empty x json badjson html badhtml 5MB fail
-	Conn   string `json:"conn"`   // ok refused timeout reset eof
+	Conn   string `json:"conn"`   // ok refused timeout reset eof tlsalert tlshandshake badcert noalpn(documented fatal for http2)
 }
 
 func defR19(long bool) R19 {
@@ -80,7 +81,14 @@ type c19client struct {
 	n      *int
 	sent   *[]string
 	bodies *int
+	h2     bool
 }
+
+// tlsAlert stands for crypto/tls's unexported alert type: net/http hands it over as
+// &net.OpError{Op: "remote error", Err: alert}.
+type tlsAlert string
+
+func (a tlsAlert) Error() string { return "tls: " + string(a) }
 
 func (c *c19client) CloseIdleConnections() {}
 
@@ -100,6 +108,14 @@ func (c *c19client) Do(req *http.Request) (*http.Response, error) {
 		return nil, &net.OpError{Op: "read", Net: "tcp", Err: &os.SyscallError{Syscall: "read", Err: syscall.ECONNRESET}}
 	case "eof":
 		return nil, io.ErrUnexpectedEOF
+	case "tlsalert":
+		return nil, &net.OpError{Op: "remote error", Err: tlsAlert("internal error")}
+	case "tlshandshake":
+		return nil, &net.OpError{Op: "remote error", Err: tlsAlert("handshake failure")}
+	case "badcert":
+		return nil, fmt.Errorf("tls: failed to verify certificate: x509: certificate signed by unknown authority")
+	case "noalpn":
+		return nil, &net.OpError{Op: "remote error", Err: tlsAlert("no application protocol")}
 	}
 	h := http.Header{"Content-Type": []string{"application/json"}}
 	switch r.Header {
@@ -130,7 +146,12 @@ func (c *c19client) Do(req *http.Request) (*http.Response, error) {
 	default:
 		body = io.NopCloser(strings.NewReader(r.Body))
 	}
-	return &http.Response{StatusCode: r.Status, Status: fmt.Sprintf("%d x", r.Status), Proto: "HTTP/1.1", ProtoMajor: 1, ProtoMinor: 1, Header: h, Body: body, Request: req, ContentLength: -1}, nil
+	res := &http.Response{StatusCode: r.Status, Status: fmt.Sprintf("%d x", r.Status), Proto: "HTTP/1.1", ProtoMajor: 1, ProtoMinor: 1, Header: h, Body: body, Request: req, ContentLength: -1}
+	if c.h2 {
+		res.Proto, res.ProtoMajor, res.ProtoMinor = "HTTP/2.0", 2, 0
+		res.TLS = &tls.ConnectionState{NegotiatedProtocol: "h2", NegotiatedProtocolIsMutual: true, HandshakeComplete: true}
+	}
+	return res, nil
 }
 
 const c19scenario = `requests:
@@ -206,6 +227,10 @@ func (r *c19run) scenario(x *vs.X) func(end, msg string) error {
 	gconf.Target = "127.0.0.1:80"
 	gconf.TargetResolved = "127.0.0.1:80"
 	cc := func(phttp.ClientConfig, string) phttp.Client {
+		if c.Gun == "http2" {
+			// the http2 guns' client: fatal only when the target has no HTTP/2
+			return phttp.ZvPanicOnHTTP1(&c19client{cell: c, n: &r.n, sent: &r.sent, h2: true})
+		}
 		return &c19client{cell: c, n: &r.n, sent: &r.sent}
 	}
 	newGun := func() (core.Gun, error) {
@@ -307,13 +332,13 @@ func c19cells(thorough bool) []C19Cell {
 		a.Body = b
 		alts = append(alts, a)
 	}
-	for _, cn := range []string{"refused", "timeout", "reset", "eof"} {
+	for _, cn := range []string{"refused", "timeout", "reset", "eof", "tlsalert", "tlshandshake", "badcert"} {
 		a := d
 		a.Conn = cn
 		alts = append(alts, a)
 	}
 	var out []C19Cell
-	for _, gun := range []string{"http", "scenario"} {
+	for _, gun := range []string{"http", "scenario", "http2"} {
 		per := 1
 		if gun == "scenario" {
 			per = 3
